@@ -803,7 +803,10 @@ SyntaxVisitor::Action TypeChecker::visitVariableAndOrFunctionDeclaration(
     for (auto iter = node->declarators(); iter; iter = iter->next) {
         auto decltor = iter->value;
         auto decl = semaModel_->declarationBy(decltor);
-        PSY_ASSERT_2(decl, continue);
+        // (Not PSY_ASSERT_2(decl, continue): within the macro's `do ... while (0)'
+        // a `continue' leaves the macro, not this loop.)
+        if (!decl)
+            continue;
         switch (decl->category()) {
             case DeclarationCategory::Member:
             case DeclarationCategory::Function:
